@@ -50,17 +50,21 @@ void NiGeometryData::Sync(NiStreamReversible& stream) {
 			stream.Sync(vertices[i]);
 	}
 
-	// Disable tangent flag for OB
+	// Disable tangent flag for OB (in the file only: saving must not alter the in-memory flags)
+	uint16_t fileDataFlags = dataFlags;
 	if (stream.GetVersion().IsOB())
-		dataFlags &= ~(1 << 12);
+		fileDataFlags &= ~(1 << 12);
 
 	if (stream.GetVersion().File() >= NiFileVersion::V10_0_1_0)
-		stream.Sync(dataFlags);
+		stream.Sync(fileDataFlags);
 
-	uint16_t nbtMethod = dataFlags & 0xF000;
-	uint8_t numTextureSets = dataFlags & 0x3F;
+	if (stream.GetMode() == NiStreamReversible::Mode::Reading)
+		dataFlags = fileDataFlags;
+
+	uint16_t nbtMethod = fileDataFlags & 0xF000;
+	uint8_t numTextureSets = fileDataFlags & 0x3F;
 	if (stream.GetVersion().Stream() >= 34)
-		numTextureSets = dataFlags & 0x1;
+		numTextureSets = fileDataFlags & 0x1;
 
 	if (stream.GetVersion().File() == NiFileVersion::V20_2_0_7 && stream.GetVersion().Stream() > 34)
 		stream.Sync(materialCRC);
